@@ -1,10 +1,12 @@
 (* C18 — the bridge is told the right client address or none; the ClientID -> address memory is
-   bounded.  Statements only; proofs are in Proofs/ClientIdProofs.v.
+   bounded.  Statements only; proofs are in Proofs/ClientIdProofs.v and Proofs/ServerAcceptProofs.v.
    Models: Model/ClientIdRing.v (clientIDMap of server/lib/turbotunnel.go), Model/ClientAddr.v
    (clientAddr of server/lib/http.go after net.ParseIP), Model/ServerCarrier.v (turbotunnelMode's Set,
-   acceptStreams' Get, handleConn's RemoteAddr().String()). *)
+   acceptStreams' Get, handleConn's RemoteAddr().String()), Model/ServerAccept.v (acceptSessions' loop and
+   the per-session goroutines as an interleaving machine: accept, goroutine start, stream). *)
 From Coq Require Import List NArith Bool Arith.
-From Snow Require Import Lib.Wire Model.ClientIdRing Model.ClientAddr Model.ServerCarrier Proofs.ClientIdProofs.
+From Snow Require Import Lib.Wire Model.ClientIdRing Model.ClientAddr Model.ServerCarrier Model.ServerAccept
+                         Proofs.ClientIdProofs Proofs.ServerAcceptProofs.
 Import ListNotations.
 Open Scope nat_scope.
 
@@ -133,3 +135,107 @@ Example C18_witness_cap1 :
   let evs := [Carrier 1%N a; Carrier 2%N b; Accept 2%N; Accept 1%N] in
   run_v0 1 evs = [AStr ([53; 46; 54; 46; 55; 46; 56; 58; 49]%N); ANil] /\ run 1 evs = [AStr ([53; 46; 54; 46; 55; 46; 56; 58; 49]%N); AStr []].
 Proof. split; reflexivity. Qed.
+
+(* ================================================================ the accept loop under every schedule
+   Model/ServerAccept.v: acceptSessions accepts sessions (LAccept cid; session index = number of earlier
+   accepts) and spawns a goroutine per session, which is scheduled at some later moment (LStart i) - after
+   any number of further accepts, carriers (LCarrier) and steps of other sessions, in any order among
+   the goroutines - and from then on hands out the session's streams (LStream i).  sched_conns lists every
+   connection handed out as (session index, RemoteAddr()).  Shapes: InGoroutine = the code (acceptStreams
+   looks up the ClientID of its own conn), AtAcceptOwn = lookup in the loop handed over by value,
+   AtAcceptShared = lookup in the loop into a variable shared by all iterations (not the code). *)
+
+(* the code, ALL schedules: a connection of session i carries the address looked up for the ClientID of
+   session i (the i-th accepted) in the map as it was when the goroutine of session i started, i.e. the
+   sanitised client_ip of the most recent carrier with that ClientID among the last cap carriers then *)
+Theorem C18_schedule_attribution : forall (cap : nat) (evs : list alabel) (i : nat) (a : addr),
+  In (i, a) (sched_conns InGoroutine cap evs) ->
+  exists pre post cid, evs = pre ++ LStart i :: post /\ nth_error (accepted pre) i = Some cid /\
+    nth_error (accepted evs) i = Some cid /\
+    a = accept (state_after cap (carriers_of pre)) cid /\
+    a = spec_attr cap (carriers_rev (carriers_of pre)) cid.
+Proof. exact sched_attribution. Qed.
+
+(* never another session's address, for all schedules: it is empty, or what a carrier presented under the
+   ClientID of THIS session *)
+Theorem C18_schedule_never_foreign : forall (cap : nat) (evs : list alabel) (i : nat) (a : addr),
+  In (i, a) (sched_conns InGoroutine cap evs) ->
+  exists cid, nth_error (accepted evs) i = Some cid /\
+    (a = AStr [] \/ exists p, In (LCarrier cid p) evs /\ a = AStr (sanitise p)).
+Proof. exact sched_never_foreign. Qed.
+
+(* all connections of one session carry one address, whatever the schedule (every shape) *)
+Theorem C18_schedule_address_fixed : forall (sh : shape) (cap : nat) (evs : list alabel) (i : nat) (a b : addr),
+  In (i, a) (sched_conns sh cap evs) -> In (i, b) (sched_conns sh cap evs) -> a = b.
+Proof. exact sched_fixed. Qed.
+
+(* the lookup moved into the accept loop and handed to the goroutine by value: the address is the one of
+   the session's ClientID at its accept, whenever its goroutine starts *)
+Theorem C18_schedule_attribution_by_value : forall (cap : nat) (evs : list alabel) (i : nat) (a : addr),
+  In (i, a) (sched_conns AtAcceptOwn cap evs) ->
+  exists pre post cid, evs = pre ++ LAccept cid :: post /\ length (accepted pre) = i /\
+    a = accept (state_after cap (carriers_of pre)) cid /\
+    a = spec_attr cap (carriers_rev (carriers_of pre)) cid.
+Proof. exact sched_attribution_own. Qed.
+
+Theorem C18_schedule_never_foreign_by_value : forall (cap : nat) (evs : list alabel) (i : nat) (a : addr),
+  In (i, a) (sched_conns AtAcceptOwn cap evs) ->
+  exists cid, nth_error (accepted evs) i = Some cid /\
+    (a = AStr [] \/ exists p, In (LCarrier cid p) evs /\ a = AStr (sanitise p)).
+Proof. exact sched_never_foreign_own. Qed.
+
+(* bursts: if no carrier starts during `burst` (any number of sessions accepted back to back, their
+   goroutines started in any order, streams in any order), every connection of a session accepted in
+   `burst` carries the address its own ClientID had in the map before the burst *)
+Theorem C18_burst_order_irrelevant : forall (cap : nat) (pre burst : list alabel) (i : nat) (a : addr),
+  forallb no_carrier burst = true -> length (accepted pre) <= i ->
+  In (i, a) (sched_conns InGoroutine cap (pre ++ burst)) ->
+  exists cid, nth_error (accepted (pre ++ burst)) i = Some cid /\
+    a = accept (state_after cap (carriers_of pre)) cid /\
+    a = spec_attr cap (carriers_rev (carriers_of pre)) cid.
+Proof. exact sched_burst_order_irrelevant. Qed.
+
+(* the histories of Model/ServerCarrier.v (C18_session_address_fixed etc.) are the schedules in which every
+   goroutine starts and hands out its first connection right after its accept *)
+Theorem C18_sequential_histories_are_schedules : forall (cap : nat) (evs : list event),
+  run_conns cap evs = sched_conns InGoroutine cap (expand 0 evs).
+Proof. exact seq_is_schedule. Qed.
+
+(* what the `clientid burst` cases print (brun) are addresses of connections of the machine run on the
+   schedule the case stands for *)
+Theorem C18_burst_runner_sound : forall (sh : shape) (toks : list btok) (st : astate) (n : nat) (a : addr),
+  In a (brun sh st n toks) -> exists i, In (i, a) (aconns sh st (btoks_labels n toks)).
+Proof. exact brun_sound. Qed.
+
+(* hypotheses satisfiable, and the theorems tell the shapes apart: clients 1 (1.2.3.4) and 2 (5.6.7.8)
+   are accepted back to back and the goroutine of session 0 starts after the second accept.  The code
+   and the by-value variant give each session its own address; the shared-variable shape gives session
+   0 the address of client 2. *)
+Example C18_schedule_witness :
+  forallb no_carrier (skipn 2 shared_witness) = true /\
+  sched_conns InGoroutine 2 shared_witness = [(0, AStr (sanitise (ip4 1 2 3 4))); (1, AStr (sanitise (ip4 5 6 7 8)))] /\
+  sched_conns AtAcceptOwn 2 shared_witness = [(0, AStr (sanitise (ip4 1 2 3 4))); (1, AStr (sanitise (ip4 5 6 7 8)))] /\
+  sched_conns AtAcceptShared 2 shared_witness = [(0, AStr (sanitise (ip4 5 6 7 8))); (1, AStr (sanitise (ip4 5 6 7 8)))].
+Proof. split; [reflexivity | exact shared_witness_good]. Qed.
+
+(* a burst of three sessions (one without client_ip) whose goroutines start in reverse order, one of them
+   with three streams: as printed by the case runner *)
+Example C18_burst_witness :
+  let c1 := Carrier 1%N (ip4 1 2 3 4) in let c2 := Carrier 2%N Absent in let c3 := Carrier 3%N (ip4 5 6 7 8) in
+  let toks := [BEv c1; BEv c2; BEv c3; BBurst [(1%N, 1, 2); (2%N, 3, 1); (3%N, 1, 0)]] in
+  brun InGoroutine (ainit 3) 0 toks =
+    [AStr (sanitise (ip4 1 2 3 4)); AStr []; AStr []; AStr []; AStr (sanitise (ip4 5 6 7 8))] /\
+  brun AtAcceptShared (ainit 3) 0 toks =
+    [AStr (sanitise (ip4 5 6 7 8)); AStr (sanitise (ip4 5 6 7 8)); AStr (sanitise (ip4 5 6 7 8));
+     AStr (sanitise (ip4 5 6 7 8)); AStr (sanitise (ip4 5 6 7 8))].
+Proof. split; vm_compute; reflexivity. Qed.
+
+(* NOT the code - the shape the theorems above exclude: with the looked-up address in a variable shared
+   by the iterations of the accept loop there is a schedule in which a connection of one client carries
+   an address that no carrier presented under its ClientID and that a carrier of ANOTHER ClientID did *)
+Theorem C18_shared_variable_refuted :
+  exists (cap : nat) (evs : list alabel) (i : nat) (a : addr) (cid : N),
+    In (i, a) (sched_conns AtAcceptShared cap evs) /\ nth_error (accepted evs) i = Some cid /\
+    a <> AStr [] /\ (forall p, In (LCarrier cid p) evs -> a <> AStr (sanitise p)) /\
+    (exists cid' p', cid' <> cid /\ In (LCarrier cid' p') evs /\ a = AStr (sanitise p')).
+Proof. exact shared_variable_refuted. Qed.
